@@ -306,6 +306,11 @@ func (h *Hub) coordinateConnectionInitations(ski string, entry *api.MdnsEntry) {
 func (h *Hub) prepareConnectionInitation(ski string, counter int, entry *api.MdnsEntry) {
 	h.setConnectionAttemptRunning(ski, false)
 
+	// nothing is initiated anymore once the hub was shut down
+	if h.checkIsShutdown() {
+		return
+	}
+
 	// check if the current counter is still the same, otherwise this counter is irrelevant
 	currentCounter, exists := h.getCurrentConnectionAttemptCounter(ski)
 	if !exists || currentCounter != counter {
@@ -337,6 +342,11 @@ func (h *Hub) prepareConnectionInitation(ski string, counter int, entry *api.Mdn
 // returns true if successful
 func (h *Hub) initateConnection(remoteService *api.ServiceDetails, entry *api.MdnsEntry) bool {
 	var err error
+
+	// a delayed connection attempt may fire after the hub was shut down
+	if h.checkIsShutdown() {
+		return false
+	}
 
 	// connection attempt is not relevant if the device is no longer paired
 	// or it is not queued for pairing
